@@ -12,6 +12,14 @@ CHECKS = {
    technique="TLA+ spec RnsScaling (integer meaning of rescaling, basis extension, mod-down): TLC sanity-checks the definitions exhaustively, then validates traces of package ring and rlwe.Evaluator.ModDown (toy chains: all values; real size: BigNat inequalities)",
    text="TLC exhausts the definitions on a toy chain (rounding is nearest, floor is floor, iterated division composes, exact answers are accepted); the real DivRound/DivFloor(ByLastModulus)[Many][NTT], ModUpQtoP/PtoQ, ModDownQPtoQ[NTT]/QPtoP, ExtendBasisSmallNormAndCenter and rlwe.Evaluator.ModDown run on toy chains for every value of [0,Q) / [0,QP), every (levelQ, levelP) and every number of rescalings (TLC computes the expectation), and on 25..61-bit chains at quotient boundaries (k*q+-3, k*q+q/2+-3, Q/2, Q/4), where TLC checks the defining inequalities on CRT-reconstructed integers.",
    note="Trusted: TLC, the RnsScaling specification, math/big CRT reconstruction in the harness (quotient witnesses are re-checked). Decomposer digits are covered functionally by C04."),
+ "C03": dict(spec="RlweCore / RlweCoreGen / RlweCoreTrace", design="DESIGN.md §5 C03",
+   technique="TLA+ spec RlweCore (error magnitudes of fresh ciphertexts, public keys, evaluation-key rows): TLC enumerates every admissible encryption configuration; the real Encryptor/Decryptor/KeyGenerator runs are validated by TLC against two-sided bounds",
+   text="TLC enumerates every configuration (7 parameter sets incl. no-P, three P primes, unequal prime sizes, sparse secret with a wide error, conjugate-invariant ring) x {sk, pk} x {NewEncryptor, ShallowCopy, WithKey, WithPRNG} x every level x degree 0/1/2 target (pre-filled with unrelated data) x IsNTT x IsMontgomery; each is executed on the real rlwe.Encryptor and decrypted with the secret key (also into a reused plaintext of a higher level); TLC checks metadata, level, the infinity norm of the error against the bound implied by the declared distributions, a lower bound on its standard deviation, that two encryptions differ in both components, and that an independent key decrypts to something of the order of the modulus; the error of public keys and of every row of evaluation keys (RNS and base-2 digits, compressed and not) is bounded from both sides.",
+   note="Trusted: TLC, the RlweCore bounds (worst case over the declared distributions), the harness' centred big-integer norm (ring.PolyToBigintCentered), the library's gadget-vector helper used to remove the message from evaluation-key rows. N is fixed to 2^10."),
+ "C04": dict(spec="RlweCore / RlweCoreGen / RlweCoreTrace", design="DESIGN.md §5 C04",
+   technique="TLA+ spec RlweCore (key-switch error as a function of the key's decomposition): TLC enumerates every admissible (LevelQ, LevelP, BaseTwoDecomposition, Compressed, ciphertext level, domain, operation); real rlwe.Evaluator runs validated by TLC",
+   text="TLC enumerates every admissible evaluation-key parameterisation on 7 parameter sets (1..5 Q primes of 35..60 bits, 0..3 P primes) and every ciphertext level not above the key's, in and out of the NTT domain, for ApplyEvaluationKey, Relinearize (of a degree-2 encryption built by the harness), Automorphism, AutomorphismHoisted and AutomorphismHoistedLazy+ModDown (receiver at the maximum P level); the decrypted result must be the transformed plaintext with an error below the bound the spec derives from the number of digits, the digit size, N, sigma and P; compressed keys must expand identically directly and after serialisation, a second Expand must change nothing, and the expanded key must switch correctly.",
+   note="Trusted: TLC, the RlweCore key-switch bound (16 standard deviations of the digit-times-error sum, checked against the worst case), the harness' plaintext-side automorphism (ring.Automorphism). Ring-degree switching, standard/conjugate-invariant swap and ring packing are not yet driven. Keys without P are only used with a base-2 decomposition."),
  "C05": dict(spec="IntEval / IntEvalGen / IntEvalTrace", design="DESIGN.md §5 C05",
    technique="TLA+ spec IntEval: TLC exhaustive + simulated program generation, replay on bgv.Evaluator, TLC trace validation of the recorded run",
    text="TLC checks the evaluator specification (value/scale/level/degree/error rules with the raw=m*scale refinement invariant DecodeExact) exhaustively on a small instance; every behaviour TLC generates (all depth-2/3 programs over small pools, thousands of simulated longer programs over all operand kinds, levels, scales, both modes, three key configurations) is executed on the real bgv.Evaluator and the recorded trace (decrypted raw slots, scale, level, degree, error/panic) must be a behaviour of the specification.",
